@@ -754,6 +754,15 @@ static void emit_records(const char *tag, int which, const uint8_t *s, size_t n)
 								ty == TLS_extension_key_share ? 8 : 11);
 							snprintf(nm, sizeof(nm), "%s_rec%02d_chext%d", tag, k, j++);
 							seedp("fz_tlsrec", nm, pre, 3, e + 4, dl);
+							{	/* the same extension for the extension printers: [type][data] */
+								uint8_t pb[600];
+								if (dl + 2 <= sizeof(pb)) {
+									pb[0] = e[0]; pb[1] = e[1]; memcpy(pb + 2, e + 4, dl);
+									pre[0] = 2; pre[1] = 247; pre[2] = (uint8_t)j;
+									snprintf(nm, sizeof(nm), "%s_rec%02d_chext%d_print", tag, k, j);
+									seedp("fz_tlsrec", nm, pre, 3, pb, dl + 2);
+								}
+							}
 							e += 4 + dl; el -= 4 + dl;
 						}
 					}
